@@ -60,7 +60,7 @@ def local_payload(U, P, is_index):
 
 
 class Cell:
-    __slots__ = ("kind", "left", "rowid", "plen", "local", "ovfl", "off", "page")
+    __slots__ = ("kind", "left", "rowid", "plen", "local", "ovfl", "off", "page", "plen_off", "rowid_off", "payload_off", "ovfl_off")
 
     def __init__(self, kind):
         self.kind = kind
@@ -68,6 +68,7 @@ class Cell:
         self.local = b""
         self.off = 0
         self.page = 0
+        self.plen_off = self.rowid_off = self.payload_off = self.ovfl_off = None
 
 
 class Page:
@@ -110,18 +111,23 @@ class DBFile:
             c.left = struct.unpack(">I", b[o:o + 4])[0]
             o += 4
         if kind == "ti":
+            c.rowid_off = o
             k, n = varint(b, o)
             c.rowid = signed64(k)
             return c
+        c.plen_off = o
         c.plen, n = varint(b, o)
         o += n
         if kind == "tl":
+            c.rowid_off = o
             k, n = varint(b, o)
             c.rowid = signed64(k)
             o += n
         loc = local_payload(self.U, c.plen, kind != "tl")
+        c.payload_off = o
         c.local = b[o:o + loc]
         if loc < c.plen:
+            c.ovfl_off = o + loc
             c.ovfl = struct.unpack(">I", b[o + loc:o + loc + 4])[0]
         return c
 
